@@ -857,6 +857,17 @@ def gen_big_symbol_cases(seed, count):
             sent = sm.sentence(nn + 2) or [terms[0][0]]
             op('parse 0 user user 13 %s' % ' '.join(str(g.code(t)) for t in sent))
         op('parse 0 user user 13 %d %d' % (terms[0][1], terms[1][1]))
+        # redefinition of the same object after its containers have grown (they are emptied, not
+        # recreated): a second, different grammar that again needs more than the first segments
+        k2 = r.choice([150, 300])
+        t2 = [('u%d' % j, 5 + 3 * j) for j in range(k2)]
+        g2 = Grammar(t2, [('S', 's3', 1, [t2[-1][0], t2[k2 // 2][0], t2[0][0]], [0, 1, 2]),
+                          ('S', 'long' + 'Z' * r.choice([5, 400]), 2, [t2[1][0]] * r.choice([2, 70]), [0])], True)
+        c[1:1] = []
+        gi = c.index('endgram') + 1
+        c[gi:gi] = g2.text(1)
+        op('def 0 1'); op('parse 0 user user 13 %d %d %d' % (t2[-1][1], t2[k2 // 2][1], t2[0][1]))
+        op('def 0 0'); op('parse 0 user user 13 %d' % terms[0][1])
         op('free 0')
         c.append('end')
         cases.append(c)
